@@ -55,7 +55,7 @@ def main():
     text = open(os.path.join(d, demo)).read()
     m = re.search(r"^package\s+(\w+)", text, re.M)
     pkg = m.group(1) if m else "main"
-    tags = "-tags verif" if re.search(r"go:build.*verif", text) else ""
+    tags = "-tags verif" if re.search(r"go:build.*verif|-tags verif", text) else ""
     if pkg == "main":
         ddir = "zz_seed_demo"
         os.makedirs(os.path.join(wt, ddir), exist_ok=True)
